@@ -136,6 +136,48 @@ def self_concat_family(rng):
     return out
 
 
+def operand_provenance_family(rng):
+    """`a + b` builds a new list and leaves both operands alone *whatever expression produced them*: a variable, a
+    grouped variable, an element of a container, a record field, the result of a user function that hands back one of
+    its arguments / a global / an element (identity, builder, getter style).  After the concatenation several fresh
+    containers are allocated and changed; the operands must still be what they were (shared with C16)"""
+    out = []
+    funcs = [("func", "একই", ["ত"], [("return", G.var("ত"))]),
+             ("func", "যোগ", ["ত", "ম"], [("expr", G.call("_লিস্ট-পুশ", G.var("ত"), G.var("ম"))), ("return", G.var("ত"))]),
+             ("func", "গ্লোবাল", [], [("return", G.var("ক"))]),
+             ("func", "প্রথম", ["ধ"], [("return", G.idx(G.var("ধ"), G.num(0)))])]
+    sources = {"var": G.var("ক"), "group": G.grp(G.var("ক")), "slot": G.idx(G.var("ধারক"), G.num(0)), "field": G.idx(G.var("খাতা"), G.s("ভ")),
+               "identity": G.call("একই", G.var("ক")), "builder": G.call("যোগ", G.var("ক"), G.num(4)), "getter": G.call("গ্লোবাল"),
+               "element-getter": G.call("প্রথম", G.var("ধারক")), "nested-call": G.call("একই", G.call("একই", G.var("ক")))}
+    others = {"lit": G.lst(G.num(5), G.num(6)), "empty": G.lst(), "same": None, "call-fresh": G.call("_স্ট্রিং-স্প্লিট", G.s("p,q"), G.s(","))}
+    n = 0
+    for sk, src in sources.items():
+        for ok, oth in others.items():
+            for side in ("left", "right"):
+                r = rng.fork(f"op-{sk}-{ok}-{side}")
+                o = src if oth is None else oth
+                e = G.bin_("+", src, o) if side == "left" else G.bin_("+", o, src)
+                prog = list(funcs) + [("decl", "ক", G.lst(G.num(1), G.num(2), G.num(3))), ("decl", "ধারক", G.lst(G.var("ক"), G.num(0))),
+                                      ("decl", "খাতা", G.rec((G.s("ভ"), G.var("ক")))),
+                                      ("decl", "ফল", e), ("print", G.var("ক")), ("print", G.var("ফল")),
+                                      # fresh containers by every allocation route
+                                      ("decl", "গ", G.lst(G.s("x"), G.s("y"))), ("decl", "ঘ", G.lst(G.s("p"))),
+                                      ("decl", "ঙ", G.bin_("+", G.lst(G.num(8)), G.lst(G.num(9)))),
+                                      ("decl", "চ", G.call("_স্ট্রিং-স্প্লিট", G.s("a-b-c"), G.s("-"))),
+                                      ("decl", "ছ", G.rec((G.s("k"), G.lst(G.num(0))))),
+                                      ("print", G.var("ক")), ("print", G.call("_লিস্ট-লেন", G.var("ক"))), ("print", G.var("ফল")),
+                                      ("expr", G.call("_লিস্ট-পুশ", G.var("গ"), G.s("z"))), ("expr", G.call("_লিস্ট-পুশ", G.var("ঘ"), G.s("q"))),
+                                      ("assign", "ঙ", [G.num(0)], G.s("ঙ")), ("expr", G.call("_লিস্ট-পপ", G.var("চ"), G.num(0))),
+                                      ("print", G.var("ক")), ("print", G.var("ফল")), ("print", G.var("ধারক")), ("print", G.idx(G.var("খাতা"), G.s("ভ"))),
+                                      ("expr", G.call("_লিস্ট-পপ", G.var("ক"), G.num(0))), ("assign", "ক", [G.num(0)], G.num(9)),
+                                      ("expr", G.call("_লিস্ট-পুশ", G.var("ক"), G.num(0), G.num(7))),
+                                      ("print", G.var("ক")), ("print", G.var("ফল")), ("print", G.var("গ")), ("print", G.var("ঘ")), ("print", G.var("ঙ")),
+                                      ("print", G.var("চ")), ("print", G.var("ছ"))]
+                out.append(prog_case("operand-provenance", prog, rng=r, info={"source": sk, "other": ok, "side": side}))
+                n += 1
+    return out
+
+
 def cases(rng, tier, stats):
     out = []
     n = 15000 if tier == "thorough" else 600
@@ -218,4 +260,7 @@ def cases(rng, tier, stats):
     stats["programs"] = n
     stats["with_deep_write"] = deep
     stats["self_concat_family"] = fam
+    op = operand_provenance_family(rng)
+    out += op
+    stats["operand_provenance_family"] = len(op)
     return out
